@@ -730,7 +730,9 @@ impl View for ViewCached {
         layout: ViewLayout<'_>,
     ) -> Result<(), Error> {
         if let Some(view) = layout.data::<ArcView<'static>>() {
-            view.render(ctx, surf, layout.view())?;
+            let surf = layout.apply_to(surf);
+            let child_layout = layout.children().next().ok_or(Error::InvalidLayout)?;
+            view.render(ctx, surf, child_layout)?;
         }
         Ok(())
     }
@@ -742,8 +744,12 @@ impl View for ViewCached {
         mut layout: ViewMutLayout<'_>,
     ) -> Result<(), Error> {
         if let Some(view) = self.cache.as_ref().and_then(|c| c.get(self.uid)) {
-            view.layout(ctx, ct, layout.view_mut())?;
-            layout.set_data(view);
+            // cached view gets its own layout node, otherwise layout data of this node
+            // would be shared with (and overwritten by) the cached view
+            let mut child_layout = layout.push_default();
+            view.layout(ctx, ct, child_layout.view_mut())?;
+            let size = child_layout.size();
+            *layout = Layout::new().with_size(size).with_data(view);
         }
         Ok(())
     }
